@@ -412,6 +412,7 @@ pub fn exec_op(cx: &Cx, world: &mut World, op: &Value) {
                 let m = r.as_object_mut().unwrap();
                 m.insert("op".into(), json!("WOp"));
                 m.insert("k".into(), op["k"].clone());
+                m.insert("v".into(), json!(op["v"].as_str().unwrap_or("join")));
                 m.insert("s".into(), json!(s + 1));
                 emit(cx, r, Some(&*world));
             }
@@ -547,6 +548,7 @@ pub fn run_file(input: &str, out: &mut Out) {
             continue;
         }
         let script: Value = serde_json::from_str(line).expect("script json");
+        out.begin_script(&script["tid"]);
         for l in run_script(&script) {
             out.line(&l);
         }
